@@ -43,7 +43,7 @@ theorem sorted_by_projection (k : Bytes) (rows : List Row) :
 theorem rowLe_int_key (S : Strs) (k : Bytes) (a b : Row) (x y : Int)
     (ha : a.get k = some (.lit (.int x))) (hb : b.get k = some (.lit (.int y))) :
     rowLe S [(k, false)] a b = decide (intKey k a ≤ intKey k b) := by
-  simp only [rowLe, compareRows, ha, hb, compareCells, Option.getD_some, intKey]
+  simp only [rowLe, compareRows, keyOrd, ha, hb, compareCells, Option.getD_some, intKey]
   by_cases h1 : x < y
   · have : compare x y = .lt := by simp [compare, compareOfLessAndEq, h1]
     have h2 : x ≤ y := by omega
